@@ -236,6 +236,59 @@ class NP(object):
     def copy(self, a, **k):
         return _np.copy(a, **k)
 
+    def unique(self, ar, return_index=False, return_inverse=False,
+               return_counts=False, axis=None, **k):
+        """np.unique for symbolic payloads (NumPy rejects ``axis`` for object
+        arrays): values / rows are ordered and grouped by their comparisons,
+        each of which is a decision of the explorer."""
+        a = ar if isinstance(ar, _np.ndarray) else _np.asarray(ar)
+        if a.dtype != object or not any(
+                isinstance(e, Sym) for e in a.flat):
+            return _np.unique(ar, return_index=return_index,
+                              return_inverse=return_inverse,
+                              return_counts=return_counts, axis=axis, **k)
+        if axis not in (None, 0):
+            raise NotImplementedError('np.unique along axis %r on symbolic '
+                                      'data' % (axis,))
+        if axis is None:
+            items = [(e,) for e in a.flat]
+        else:
+            items = [tuple(_np.ravel(a[i])) for i in range(a.shape[0])]
+
+        def cmp(x, y):
+            for u, v in zip(x[1], y[1]):
+                if bool(u < v):
+                    return -1
+                if bool(v < u):
+                    return 1
+            return 0
+        import functools
+        order = sorted(enumerate(items), key=functools.cmp_to_key(cmp))
+        groups = []
+        for idx, it in order:
+            if groups and cmp((0, groups[-1][0]), (0, it)) == 0:
+                groups[-1][1].append(idx)
+            else:
+                groups.append((it, [idx]))
+        if axis is None:
+            vals = _np.array([g[0][0] for g in groups], dtype=object)
+        else:
+            vals = _np.empty((len(groups),) + a.shape[1:], dtype=object)
+            for j, g in enumerate(groups):
+                vals[j] = _np.array(g[0], dtype=object).reshape(a.shape[1:])
+        out = [vals]
+        if return_index:
+            out.append(_np.array([min(g[1]) for g in groups]))
+        if return_inverse:
+            inv = _np.empty(len(items), dtype=int)
+            for j, g in enumerate(groups):
+                for idx in g[1]:
+                    inv[idx] = j
+            out.append(inv)
+        if return_counts:
+            out.append(_np.array([len(g[1]) for g in groups]))
+        return out[0] if len(out) == 1 else tuple(out)
+
     # -- reductions that need truth values -----------------------------------
     def any(self, a, *args, **k):
         if isinstance(a, SymBool):
